@@ -417,7 +417,6 @@ SEQUENCE_encode_oer(const asn_TYPE_descriptor_t *td,
                 }
             }
             ret = asn_put_few_bits(&preamble, has_extensions, 1);
-            assert(ret == 0);
             if(ret < 0) {
                 ASN__ENCODE_FAILED;
             }
@@ -447,7 +446,9 @@ SEQUENCE_encode_oer(const asn_TYPE_descriptor_t *td,
             }
         }
 
-        asn_put_aligned_flush(&preamble);
+        if(asn_put_aligned_flush(&preamble) < 0) {
+            ASN__ENCODE_FAILED;
+        }
         computed_size += preamble.flushed_bytes;
     }   /* if(preamble_bits) */
 
